@@ -2,11 +2,12 @@
 import numpy as np
 
 
-def make_fd(N=8, order=4, boundary="no boundary", h=0.05, shape=None, origin=(-0.17, 0.11, 0.23)):
+def make_fd(N=8, order=4, boundary="no boundary", h=0.05, shape=None, origin=(-0.17, 0.11, 0.23), aniso=(1.0, 1.0, 1.0)):
+    """aniso: the spacing of each axis is h times its factor (dx != dy != dz grids)."""
     import aurel.finitedifference as fdm
     shape = shape or (N, N, N)
     param = {"Nx": shape[0], "Ny": shape[1], "Nz": shape[2],
-             "xmin": origin[0], "ymin": origin[1], "zmin": origin[2], "dx": h, "dy": h, "dz": h}
+             "xmin": origin[0], "ymin": origin[1], "zmin": origin[2], "dx": h * aniso[0], "dy": h * aniso[1], "dz": h * aniso[2]}
     return fdm.FiniteDifference(param, boundary=boundary, fd_order=order, verbose=False)
 
 
